@@ -635,6 +635,13 @@ func NewAddressPubKey(serializedPubKey []byte, net *chaincfg.Params) (*AddressPu
 		pkFormat = PKFCompressed
 	case 0x06, 0x07:
 		pkFormat = PKFHybrid
+	case 0x04:
+		// Uncompressed.
+	default:
+		// bchec masks the low bit of the format byte, so 0x05 parses as an
+		// uncompressed key even though it is not a defined format and would
+		// be re-serialized with a different leading byte.
+		return nil, errors.New("unsupported public key format byte")
 	}
 
 	return &AddressPubKey{
